@@ -13,7 +13,7 @@ environment, a function's results are determined by its arguments: that is the a
 """
 import re
 
-from . import core, nonecp
+from . import c04, core, nonecp
 from .api import Api
 
 LEVEL = "proof"
@@ -188,6 +188,8 @@ def run_config(chk, ctx, name):
         t = F.reachable([m])
         chk.ob("E4.signing-key-delegates-to-sign", "%s[%s]" % (core.strip_generics(m), name), sign_fn in t,
                "%s does not reach the byte-level sign function %s" % (m, sign_fn))
+    # the in-memory key stores the complete successor key the byte-level function hands out
+    c04.in_memory_key_rules(chk, F, A, "" if name == "default" else "[%s]" % name, "E4")
     # who constructs `Signature`?
     sig_ty = A.type_path("Signature")
     producers = set()
